@@ -406,6 +406,8 @@ impl Property for C09 {
                     }
                     match (&want_dir, cwd) {
                         (None, None) => {}
+                        // an explicit `.` is find's own directory
+                        (None, Some(c)) if norm_dir(&String::from_utf8_lossy(c)).is_empty() && !c.starts_with(b"/") => {}
                         (None, Some(c)) => {
                             rep.fail("C09.unexpected-cwd", format!("{}: -exec ran [{}] in directory [{}]", describe(), crate::sys::show(&path), crate::sys::show(c)));
                             return;
@@ -442,7 +444,7 @@ impl Property for C09 {
                         let dir_ok = match (&d2, &got_dir) {
                             (None, None) => true,
                             (Some(d), g) => g.clone().unwrap_or_default() == *d,
-                            (None, Some(_)) => false,
+                            (None, Some(g)) => g.is_empty() && !cwd2.as_ref().is_some_and(|c| c.starts_with(b"/")),
                         };
                         if *argv2 != want2 || !dir_ok {
                             rep.fail(
